@@ -112,40 +112,42 @@ void runCase(long long i, Prng& r, const Args& a) {
     const LD h_Jr_ = stepFor(0); auto o_Jr_ = [&](LD hh) { return ref::fdJac(n, n, hh, [&](const VecL& d) { VecL td = tl + d; return ref::gminus(g, ref::gexp(g, td), F0); }); };
     c.rec("exp", toLM(Ja), h_Jr_, o_Jr_);
   }
+  // "each returned matrix": in a third of the cases the two Jacobians of a two-output operation are requested one at a time
+  const bool alone = (i % 3 == 1); const std::string sfx = alone ? "(requested-alone)" : "";
   if (sel[3]) {  // compose
     c.cellkey = gx + lx; c.vkey = gx + dropLin(lx);
-    X.compose(Y, Ja, Jb);
+    if (alone) { X.compose(Y, Ja, MonG::_); X.compose(Y, MonG::_, Jb); } else X.compose(Y, Ja, Jb);
     GM F0 = ref::gmul(MX, MY);
     const LD h_J1 = stepFor(0); auto o_J1 = [&](LD hh) { return ref::fdJac(n, n, hh, [&](const VecL& d) { return ref::gminus(g, ref::gmul(ref::gplus(g, MX, d), MY), F0); }); };
     const LD h_J2 = stepFor(0); auto o_J2 = [&](LD hh) { return ref::fdJac(n, n, hh, [&](const VecL& d) { return ref::gminus(g, ref::gmul(MX, ref::gplus(g, MY, d)), F0); }); };
-    c.rec("compose-J_a", toLM(Ja), h_J1, o_J1); c.rec("compose-J_b", toLM(Jb), h_J2, o_J2);
+    c.rec("compose-J_a" + sfx, toLM(Ja), h_J1, o_J1); c.rec("compose-J_b" + sfx, toLM(Jb), h_J2, o_J2);
   }
   if (sel[4]) {  // between = X^-1 Y
     c.cellkey = gx + lx; c.vkey = gx + dropLin(lx);
-    X.between(Y, Ja, Jb);
+    if (alone) { X.between(Y, Ja, MonG::_); X.between(Y, MonG::_, Jb); } else X.between(Y, Ja, Jb);
     GM F0 = ref::gmul(ref::ginv(g, MX), MY);
     const LD h_J1 = stepFor(0); auto o_J1 = [&](LD hh) { return ref::fdJac(n, n, hh, [&](const VecL& d) { return ref::gminus(g, ref::gmul(ref::ginv(g, ref::gplus(g, MX, d)), MY), F0); }); };
     const LD h_J2 = stepFor(0); auto o_J2 = [&](LD hh) { return ref::fdJac(n, n, hh, [&](const VecL& d) { return ref::gminus(g, ref::gmul(ref::ginv(g, MX), ref::gplus(g, MY, d)), F0); }); };
-    c.rec("between-J_a", toLM(Ja), h_J1, o_J1); c.rec("between-J_b", toLM(Jb), h_J2, o_J2);
+    c.rec("between-J_a" + sfx, toLM(Ja), h_J1, o_J1); c.rec("between-J_b" + sfx, toLM(Jb), h_J2, o_J2);
   }
   if (sel[5]) {  // rplus = X exp(t)
     c.cellkey = gx + lt; c.vkey = gx + dropLin(lt);
-    X.rplus(t, Ja, Jb);
+    if (alone) { X.rplus(t, Ja, MonG::_); X.rplus(t, MonG::_, Jb); } else X.rplus(t, Ja, Jb);
     GM F0 = ref::gplus(g, MX, tl);
     const LD h_J1 = stepFor(0); auto o_J1 = [&](LD hh) { return ref::fdJac(n, n, hh, [&](const VecL& d) { return ref::gminus(g, ref::gplus(g, ref::gplus(g, MX, d), tl), F0); }); };
     const LD h_J2 = stepFor(0); auto o_J2 = [&](LD hh) { return ref::fdJac(n, n, hh, [&](const VecL& d) { VecL td = tl + d; return ref::gminus(g, ref::gplus(g, MX, td), F0); }); };
-    c.rec("rplus-J_m", toLM(Ja), h_J1, o_J1); c.rec("rplus-J_t", toLM(Jb), h_J2, o_J2);
+    c.rec("rplus-J_m" + sfx, toLM(Ja), h_J1, o_J1); c.rec("rplus-J_t" + sfx, toLM(Jb), h_J2, o_J2);
     // plus is the documented alias: identical Jacobians
     MJ Pa, Pb; X.plus(t, Pa, Pb);
     if (!(Pa == Ja) || !(Pb == Jb)) LOG.viol("plus-alias-jacobians/" + c.vkey, 1, caseJ(a, i).raw("inputs", c.base.str()).str());
   }
   if (sel[6]) {  // lplus = exp(t) X
     c.cellkey = gx + lt; c.vkey = gx + dropLin(lt);
-    X.lplus(t, Ja, Jb);
+    if (alone) { X.lplus(t, Ja, MonG::_); X.lplus(t, MonG::_, Jb); } else X.lplus(t, Ja, Jb);
     GM F0 = ref::gmul(ref::gexp(g, tl), MX);
     const LD h_J1 = stepFor(0); auto o_J1 = [&](LD hh) { return ref::fdJac(n, n, hh, [&](const VecL& d) { return ref::gminus(g, ref::gmul(ref::gexp(g, tl), ref::gplus(g, MX, d)), F0); }); };
     const LD h_J2 = stepFor(0); auto o_J2 = [&](LD hh) { return ref::fdJac(n, n, hh, [&](const VecL& d) { VecL td = tl + d; return ref::gminus(g, ref::gmul(ref::gexp(g, td), MX), F0); }); };
-    c.rec("lplus-J_m", toLM(Ja), h_J1, o_J1); c.rec("lplus-J_t", toLM(Jb), h_J2, o_J2);
+    c.rec("lplus-J_m" + sfx, toLM(Ja), h_J1, o_J1); c.rec("lplus-J_t" + sfx, toLM(Jb), h_J2, o_J2);
     // tangent-side forms route their outputs to the matching argument
     MJ Ta, Tb; t.lplus(X, Ta, Tb);
     if (!(Ta == Jb) || !(Tb == Ja)) LOG.viol("tangent-lplus-jacobian-routing/" + c.vkey, 1, caseJ(a, i).raw("inputs", c.base.str()).str());
@@ -154,19 +156,19 @@ void runCase(long long i, Prng& r, const Args& a) {
   }
   if (sel[7] && thRel < PI - 1e-6) {  // rminus = log(Y^-1 X)
     c.cellkey = gx + ly; c.vkey = gx + dropLin(ly);
-    X.rminus(Y, Ja, Jb);
+    if (alone) { X.rminus(Y, Ja, MonG::_); X.rminus(Y, MonG::_, Jb); } else X.rminus(Y, Ja, Jb);
     // (X exp d) (-) Y = log(Y^-1 X exp d) and X (-) (Y exp d) = log(exp(-d) Y^-1 X): the product C = Y^-1 X is formed once, so that
     // large coordinates common to X and Y (1e6) do not enter the differences as round-off (associativity of the model group only)
     const GM C = ref::gmul(ref::ginv(g, MY), MX);
     const LD h_J1 = stepFor(thRel); auto o_J1 = [&](LD hh) { return ref::fdJac(n, n, hh, [&](const VecL& d) { VecL v = ref::glog(g, ref::gmul(C, ref::gexp(g, d))) - relXY; return v; }); };
     const LD h_J2 = stepFor(thRel); auto o_J2 = [&](LD hh) { return ref::fdJac(n, n, hh, [&](const VecL& d) { VecL md = -d; VecL v = ref::glog(g, ref::gmul(ref::gexp(g, md), C)) - relXY; return v; }); };
-    c.rec("rminus-J_a", toLM(Ja), h_J1, o_J1); c.rec("rminus-J_b", toLM(Jb), h_J2, o_J2);
+    c.rec("rminus-J_a" + sfx, toLM(Ja), h_J1, o_J1); c.rec("rminus-J_b" + sfx, toLM(Jb), h_J2, o_J2);
     MJ Pa, Pb; X.minus(Y, Pa, Pb);
     if (!(Pa == Ja) || !(Pb == Jb)) LOG.viol("minus-alias-jacobians/" + c.vkey, 1, caseJ(a, i).raw("inputs", c.base.str()).str());
   }
   if (sel[8] && thRelL < PI - 1e-6) {  // lminus = log(X Y^-1)
     c.cellkey = gx + ly; c.vkey = gx + dropLin(ly);
-    X.lminus(Y, Ja, Jb);
+    if (alone) { X.lminus(Y, Ja, MonG::_); X.lminus(Y, MonG::_, Jb); } else X.lminus(Y, Ja, Jb);
     // (X exp d) Y^-1 = D exp(Ad_Y d) and X (Y exp d)^-1 = D exp(-Ad_Y d) with D = X Y^-1 formed once and Ad_Y from its
     // definition on the model: the huge common-mode coordinates of X and Y then enter only through the linear map Ad_Y
     const GM D = ref::gmul(MX, ref::ginv(g, MY));
@@ -174,16 +176,16 @@ void runCase(long long i, Prng& r, const Args& a) {
     auto pert = [&](const VecL& d, LD sgn) { Eigen::Matrix<LD, -1, 1> dd = d; Eigen::Matrix<LD, -1, 1> w = sgn * (AdY * dd); VecL v = w; return v; };
     const LD h_J1 = stepFor(thRelL); auto o_J1 = [&](LD hh) { return ref::fdJac(n, n, hh, [&](const VecL& d) { VecL v = ref::glog(g, ref::gmul(D, ref::gexp(g, pert(d, 1)))) - relL; return v; }); };
     const LD h_J2 = stepFor(thRelL); auto o_J2 = [&](LD hh) { return ref::fdJac(n, n, hh, [&](const VecL& d) { VecL v = ref::glog(g, ref::gmul(D, ref::gexp(g, pert(d, -1)))) - relL; return v; }); };
-    c.rec("lminus-J_a", toLM(Ja), h_J1, o_J1); c.rec("lminus-J_b", toLM(Jb), h_J2, o_J2);
+    c.rec("lminus-J_a" + sfx, toLM(Ja), h_J1, o_J1); c.rec("lminus-J_b" + sfx, toLM(Jb), h_J2, o_J2);
   }
   if (sel[9]) {  // act
     c.cellkey = gx + lx; c.vkey = gx + dropLin(lx);
     Eigen::Matrix<MonS, MonG::Dim, MonG::DoF> Jm; Eigen::Matrix<MonS, MonG::Dim, MonG::Dim> Jp;
-    X.act(p, Jm, Jp);
+    if (alone) { X.act(p, Jm, tl::optional<Eigen::Ref<Eigen::Matrix<MonS, MonG::Dim, MonG::Dim>>>{}); X.act(p, tl::optional<Eigen::Ref<Eigen::Matrix<MonS, MonG::Dim, MonG::DoF>>>{}, Jp); } else X.act(p, Jm, Jp);
     VecL F0 = ref::gact(g, MX, pl);
     const LD h_J1 = 1e-4L; auto o_J1 = [&](LD hh) { return ref::fdJac(n, g.dim, hh, [&](const VecL& d) { VecL v = ref::gact(g, ref::gplus(g, MX, d), pl) - F0; return v; }); };
     const LD h_J2 = 1e-4L; auto o_J2 = [&](LD hh) { return ref::fdJac(g.dim, g.dim, hh, [&](const VecL& d) { VecL pd = pl + d; VecL v = ref::gact(g, MX, pd) - F0; return v; }); };
-    c.rec("act-J_m", toLM(Jm), h_J1, o_J1); c.rec("act-J_p", toLM(Jp), h_J2, o_J2);
+    c.rec("act-J_m" + sfx, toLM(Jm), h_J1, o_J1); c.rec("act-J_p" + sfx, toLM(Jp), h_J2, o_J2);
   }
   if (sel[10]) {  // tangent plus / minus: +-Identity exactly
     c.cellkey = gx + lt; c.vkey = gx + dropLin(lt);
